@@ -413,7 +413,7 @@ func progVariants(mode string, depth int, inGroup bool) []refmodel.Stmt {
 	var v []refmodel.Stmt
 	prefixes := [][]string{{"/g", "x"}, {"/h", "y/"}, {"/g/h"}}
 	if mode == "C04" {
-		prefixes = [][]string{{"/g"}, {"/h"}, {"/g/h"}}
+		prefixes = [][]string{{"/g", "/"}, {"/h"}, {"/g/h"}}
 		v = append(v, refmodel.Stmt{Kind: "use", K: 1}, refmodel.Stmt{Kind: "use", K: 2})
 		for _, kk := range [][2]int{{0, 0}, {1, 0}, {2, 0}, {0, 1}, {1, 1}} {
 			v = append(v, refmodel.Stmt{Kind: "route", K: kk[0], K2: kk[1]})
